@@ -39,6 +39,10 @@ class BehavioralTranslatorL3( BehavioralTranslatorL2 ):
 
   def dispatch_freevar_datatype( s, dtype ):
     if isinstance( dtype, rdt.Struct ):
+      # The type of a struct constant needs its definition in the
+      # translation result like the type of any port or wire
+      if hasattr( s, 'rtlir_data_type_translation' ):
+        return s.rtlir_data_type_translation( None, dtype )
       return s.rtlir_tr_struct_dtype( dtype )
     else:
       return super().dispatch_freevar_datatype( dtype )
